@@ -88,6 +88,13 @@ def cases():
     out.append(("builtin-position:$next-in-parameter", "  8 [+4]  Sized($next)  zz\n", False))
     out.append(("builtin-position:$next-in-size", "  8 [+$next]  UInt:8[]  zz\n", False))
     out.append(("builtin-position:$next-in-offset", "  $next [+1]  UInt  zz\n", True))
+    # an ill-typed virtual field that is referenced BEFORE its definition: rejected with a located error like any other
+    # (D21: the reference passed a Reference as the file name of the definition's errors and the compiler crashed)
+    for k in KINDS:
+        if k != "int":
+            out.append(("forward-reference:ill-typed-virtual-field(%s)" % k, "  8 [+fwd]  UInt:8[]  zz\n  let fwd = %s + 1\n" % OPERANDS[k][0], False))
+    out.append(("forward-reference:well-typed-virtual-field", "  8 [+fwd]  UInt:8[]  zz\n  let fwd = xi + 1\n", True))
+    out.append(("forward-reference:ill-typed-through-a-chain", "  let use = mid + 1\n  let mid = fwd2\n  let fwd2 = xb ? 1 : false\n", False))
     # same-named enums in two modules are different types
     imp = 'import "other.emb" as oth\n'
     for nm, expr, ok in (("==(Kind,oth.Kind)", "xk == yk", False), ("==(Kind,Kind)", "xk == zk", True), ("==(oth.Kind,oth.Kind)", "yk == oth.Kind.VA", True),
@@ -128,6 +135,11 @@ def run_case(case):
         accepted = not errors
         loc_ok = True
         msg = ""
+        for g in errors or []:
+            for m in g:
+                if not isinstance(m.source_file, str):
+                    # an error that cannot be shown (embossc crashes while formatting it) is not a rejection
+                    raise TypeError("ill-formed error message: source_file is %s, not a file name (%r)" % (type(m.source_file).__name__, m.message[:80]))
         if errors:
             first = errors[0][0]
             msg = first.message[:120]
